@@ -132,8 +132,14 @@ func (f *formatter) WriteDescription(s string) *formatter {
 		return f
 	}
 
+	if !isBlockStringSafe(s) {
+		// a block string cannot hold this text without changing it, print a quoted string
+		f.WriteString((&ast.Value{Kind: ast.StringValue, Raw: s}).String()).WriteNewline()
+		return f
+	}
+
 	f.WriteString(`"""`)
-	ss := strings.Split(s, "\n")
+	ss := strings.Split(strings.ReplaceAll(s, `"""`, `\"""`), "\n")
 	f.WriteNewline()
 	for _, s := range ss {
 		f.WriteString(s).WriteNewline()
@@ -142,6 +148,29 @@ func (f *formatter) WriteDescription(s string) *formatter {
 	f.WriteString(`"""`).WriteNewline()
 
 	return f
+}
+
+// isBlockStringSafe reports whether s survives being printed as an indented block
+// string: block strings cannot contain control characters, normalise carriage
+// returns, and lose blank first and last lines as well as the indentation that all
+// lines have in common.
+func isBlockStringSafe(s string) bool {
+	for _, r := range s {
+		if r < 0x20 && r != '\t' && r != '\n' {
+			return false
+		}
+	}
+	lines := strings.Split(s, "\n")
+	isBlank := func(line string) bool { return strings.Trim(line, " \t") == "" }
+	if isBlank(lines[0]) || isBlank(lines[len(lines)-1]) {
+		return false
+	}
+	for _, line := range lines {
+		if !isBlank(line) && line[0] != ' ' && line[0] != '\t' {
+			return true
+		}
+	}
+	return false
 }
 
 func (f *formatter) IncrementIndent() {
